@@ -177,7 +177,11 @@ def stepTok (prov : List (List Char × List UInt8)) (st : St) (tok : String) (ob
       push { st with store := some ⟨st.kind, []⟩ } "ok#"
     else if tok = "LOAD" then
       match newStore st.kind (toListing st.tree) with
-      | .ok s => push { st with store := some s, hasTree := true, tags := "loaded" :: st.tags } ("ok#" ++ keysTok (keys s))
+      | .ok s =>
+        let hidden := (keys s).any fun k => (splitSlash k).any fun n => n.head? == some '.'
+        push { st with store := some s, hasTree := true,
+                       tags := "loaded" :: (if hidden then ["loaded-hidden-name"] else []) ++ st.tags }
+          ("ok#" ++ keysTok (keys s))
       | .error _ => push { st with dead := true, tags := "load-refused" :: st.tags } "err"
     else if parts.head! = "W" || parts.head! = "D" || parts.head! = "M" || parts.head! = "L" then
       if st.frozen || (st.store.isSome && !st.hasTree) then push st "x" else
@@ -248,6 +252,16 @@ def stepTok (prov : List (List Char × List UInt8)) (st : St) (tok : String) (ob
              else
                withKeys { st with tags := "save-nonplain" :: st.tags } ("*|*|" ++ iterTok l))
         | _ => push st "bad-token"
+  -- a successful load: the key set against the files that were put on disk
+  let st' :=
+    if tok = "LOAD" && implRes == "ok" then
+      match implKeys with
+      | some ks =>
+        let nodes := (toListing st.tree).map fun e => (e.1, match e.2 with
+          | NodeKind.file => 'f' | NodeKind.dir => 'd' | NodeKind.symlink => 'l')
+        { st' with spec := st'.spec ++ Spec.loadFailures (st.kind == .image) nodes ks }
+      | none => st'
+    else st'
   -- specification clauses that need the step
   let st' :=
     match parts, st.store with
